@@ -50,6 +50,10 @@ def scenarios(ctx):
     # after the partition count grew (no periodic refresh inside the horizon: coverage is demanded for the partitions some member knows)
     out.append(("growth-refresh-in-rebalance", gc.two_members(topics={"t": 2}, grow_at=[0.5, "t", 3], metadata_max_age_ms=60000, md_refresh=True,
                                                               **dict(base, kill=False, coord_move=False)), [{"x": 1, "r": 1}]))
+    # the leader has no metadata for a topic only the joining member subscribes to; metadata refreshes injected during the join
+    out.append(("leader-lacks-topic", gc.two_members(topics={"t": 2, "u": 1}, metadata_max_age_ms=60000, md_refresh=True,
+                                                     members=[dict(topics=["t"], assignors=["range"]), dict(topics=["t", "u"], assignors=["range"], start=0.7)],
+                                                     **dict(base, kill=False, coord_move=False)), [{"x": 1, "r": 1}]))
     out.append(("pattern-new-topic", gc.two_members(topics={"ta": 1}, new_topic_at=[0.95, "tb", 2], metadata_max_age_ms=500,
                                                     members=[dict(pattern="^t.*", assignors=["range"]),
                                                              dict(pattern="^t.*", assignors=["range"], start=1.0)], **base), [{"r": 1}, {"p": 1}]))
